@@ -72,7 +72,7 @@ def cls_flexible_on_never_checked(clause, lines):
 def cls_fixed_triggered_without_start(clause, lines):
     """F-C05c: a fixed downtime is triggered by a non-OK result or through a trigger chain (OnDowntimeTriggered,
     not OnDowntimeStarted), so no DowntimeStart is ever requested although DowntimeEnd will be."""
-    if clause not in ("started_when_triggered", "end_has_start"):
+    if clause not in ("fixed_started_when_triggered", "fixed_end_has_start"):
         return False
     adds = adds_of(lines)
     starts = {}
@@ -90,7 +90,7 @@ def cls_fixed_triggered_without_start(clause, lines):
     op, a, obs = parse_line(lines[-1])
     if obs is None:
         return False
-    if clause == "started_when_triggered":
+    if clause == "fixed_started_when_triggered":
         bad = [i for i, t in obs["dts"].items() if t != 0 and starts.get(i, 0) == 0 and i not in excused]
     else:
         bad = [i for (ev, i), n in obs["evs"].items() if ev == 2 and starts.get(i, 0) == 0 and i not in excused]
